@@ -404,6 +404,34 @@ Definition qshow (q : Q) : string :=
   | None => unmodelled_mark
   end.
 
+(* exact logarithms: only of exact powers of the base (there the f64 result is the integer) *)
+Fixpoint ilog (fuel : nat) (base x acc : Z) : option Z :=
+  match fuel with
+  | O => None
+  | S f => if Z.eqb x 1 then Some acc
+           else if Z.eqb (x mod base) 0 then ilog f base (x / base) (acc + 1)%Z else None
+  end.
+Definition qlog (base : Z) (q : Q) : option Z :=
+  let q := Qred q in
+  if Z.leb (Qnum q) 0 then None
+  else if Pos.eqb (Qden q) 1 then ilog (S (Z.to_nat (Z.log2 (Qnum q)))) base (Qnum q) 0%Z
+  else if Z.eqb (Qnum q) 1 then option_map Z.opp (ilog (S (Z.to_nat (Z.log2 (Zpos (Qden q))))) base (Zpos (Qden q)) 0%Z)
+  else None.
+
+(* ffi parse on plain numbers: an optional minus sign and one numeric literal (underscores removed,
+   as the tokenizer does) *)
+Fixpoint string_codes (s : string) : list N :=
+  match s with
+  | EmptyString => []
+  | String c r => N.of_nat (nat_of_ascii c) :: string_codes r
+  end.
+Definition parse_number (s : string) : option Q :=
+  let cs := filter (fun c => negb (N.eqb c 95)) (string_codes s) in
+  match cs with
+  | 45%N :: r => option_map Qopp (lexeme_to_Q r)
+  | _ => lexeme_to_Q cs
+  end.
+
 Definition qv (q : Q) : VM.Value.res (VM.Value.value Q) := VM.Value.Ok (VM.Value.VQ (Qred q)).
 Definition qz (z : Z) : VM.Value.res (VM.Value.value Q) := VM.Value.Ok (VM.Value.VQ (inject_Z z)).
 
@@ -463,6 +491,21 @@ Definition qffi (name : string) (args : list (VM.Value.value Q)) : VM.Value.res 
         if Qeq_bool b 0 then unmodelled "mod-by-zero" else
         let r := a - b * inject_Z (q_trunc (a / b)) in
         qv (if Qle_bool 0 r then r else r + Qabs b)
+    | _ => VM.Value.Wrong
+    end
+  else if is "log2" then
+    match args with
+    | [VM.Value.VQ a] => match qlog 2 a with Some k => qz k | None => unmodelled "inexact-logarithm" end
+    | _ => VM.Value.Wrong
+    end
+  else if is "log10" then
+    match args with
+    | [VM.Value.VQ a] => match qlog 10 a with Some k => qz k | None => unmodelled "inexact-logarithm" end
+    | _ => VM.Value.Wrong
+    end
+  else if is "parse" then
+    match args with
+    | [VM.Value.VStr t] => match parse_number t with Some q => qv q | None => unmodelled "parse-of-an-expression" end
     | _ => VM.Value.Wrong
     end
   else if is "is_nan" then
